@@ -131,6 +131,19 @@ Definition dirname (p:str) : str :=
 (* file_name_normalized = os.path.normpath(os.path.abspath(file_name)) *)
 Definition nrm (cwd file : str) : str := normpath (abspath cwd file).
 
+(* Which file a name denotes: exactly two leading slashes survive normpath, yet on Linux
+   "//x" is the file "/x".  The file table is keyed by names with one leading slash; the cycle
+   test of the code compares the normalised NAMES (so "//x" and "/x" are different entries of
+   the include stack although they are the same file). *)
+Definition fs_key (n:str) : str :=
+  match n with
+  | c1 :: r1 => match r1 with
+                | c2 :: _ => if is_sl c1 && is_sl c2 then r1 else n
+                | [] => n
+                end
+  | [] => n
+  end.
+
 (* ---------------------------------------------------------------- file system oracle *)
 Inductive fent := FObjs (l:list obj) | FBad (line:nat).   (* parsed objects | the parser refuses the text (error line) *)
 Definition fsys := list (str * fent).
@@ -246,14 +259,16 @@ Section Inc.
     | 0 => Crash c_fuel
     | S f =>
         let n := nrm cwd file in
-        do objs <- fs_get fs n;
+        do objs <- fs_get fs (fs_key n);
         if mems n stack then UErr k_cycle (chain_text (stack ++ [n])) 0
         else walks isc (includes f (stack ++ [n])) (Some (dirname n)) objs
     end.
 
-  Definition fuel0 : nat := S (length fs).
+  (* a file can be on the stack under at most two names ("/x", "//x") *)
+  Definition fuel0 : nat := S (2 * length fs).
 
-  (* parse(file_name=file, process_includes=True) *)
+  (* parse(file_name=file, process_includes=True): include_stack=None becomes a new list and
+     the cycle test is skipped - the same as testing against the empty stack *)
   Definition includes_file (file:str) : res (list obj) := includes fuel0 [] file.
 
   (* parse(input_string=..., process_includes=True) where [objs] is what the parser made of the
